@@ -99,8 +99,12 @@ def configs(draw):
     # shuffle_jobs(); here a generated permutation applied through the public reconfigure_jobs()), so that the file
     # lists job ids in non-ascending order
     reorder = draw(st.one_of(st.none(), st.none(), st.permutations(list(range(n)))))
+    # how the dependencies get onto the job objects: through the constructor, or afterwards on the live object by attribute
+    # assignment (as JADE's own integration tests do: job.blocked_by = {1, 2}) or through set_blocking_jobs() (what
+    # `jade config assign-blocked-by` calls)
+    set_blockers = draw(st.sampled_from(["constructor", "constructor", "attribute", "method", "attribute_then_method"]))
     return {"jobs": jobs, "groups": groups, "max_nodes": max_nodes, "poll": poll, "hooks": hooks, "invalid": invalid,
-            "pick": draw(st.integers(0, 7)), "reorder": reorder}
+            "pick": draw(st.integers(0, 7)), "reorder": reorder, "set_blockers": set_blockers}
 
 
 def strategy(tier):
@@ -155,10 +159,20 @@ def build(case):
             elif inv == "duplicate_name" and n > 1:
                 other = case["jobs"][(pick + 1) % n]
                 name = other["name"] if other["name"] is not None else str(((pick + 1) % n) + 1)
-        cfg.add_job(GenericCommandParameters(
-            name=name, command=j["command"], blocked_by=set(blocked), cancel_on_blocking_job_failure=j["cancel"],
+        how = case.get("set_blockers", "constructor")
+        job = GenericCommandParameters(
+            name=name, command=j["command"], blocked_by=set(blocked) if how == "constructor" else set(),
+            cancel_on_blocking_job_failure=j["cancel"],
             estimated_run_minutes=est, submission_group=group, append_job_name=j["append_job_name"],
-            append_output_dir=j["append_output_dir"], ext=j["ext"]))
+            append_output_dir=j["append_output_dir"], ext=j["ext"])
+        if how == "attribute":
+            job.blocked_by = set(blocked)
+        elif how == "method":
+            job.set_blocking_jobs({str(b) for b in blocked})
+        elif how == "attribute_then_method":
+            job.blocked_by = set(blocked[:1])
+            job.set_blocking_jobs({str(b) for b in blocked})
+        cfg.add_job(job)
     return cfg
 
 
@@ -321,6 +335,7 @@ def run_case(case):
         opt = any(v2 is not None for g in case["groups"] for v2 in g["slurm"].values()) or any(case["hooks"].values())
         res["nontrivial"] = len(case["jobs"]) >= 2 and has_dep and opt
         res["classes"].append("valid")
+        res["classes"].append("blockers_set_by:" + case.get("set_blockers", "constructor"))
         if any(j["name"] is None for j in case["jobs"]):
             res["classes"].append("has_unnamed_job")
         if any(isinstance(b, int) for j in case["jobs"] for b in j["blocked_by"]):
